@@ -35,20 +35,10 @@ def run(model, col, tier):
     # ---------------- R09.1 ------------------------------------------------------
     ops = model.enum_members(OP, "Operation")
     ic = model.func(OP, "IsComparison")
-    rets = [r.value for r in ast.walk(ic) if isinstance(r, ast.Return)]
-    if len(rets) != 1:
-        raise AnalysisError(f"{OP}::IsComparison is not a single return expression")
-    pname = ic.args.args[0].arg
-    sel = []
-    for name, val in ops.items():
-        try:
-            if ev(rets[0], {f"{pname}.value": val, **{f"Operation.{n_}.value": v_ for n_, v_ in ops.items()}}):
-                sel.append(name)
-        except CannotEval as e:
-            raise AnalysisError(f"{OP}::IsComparison cannot be folded: {e}")
-    want = sorted(n for n in ops if n.startswith("CMP_"))
+    from ..infra import comparison_members
+    sel, want, ic = comparison_members(model)
     col.check(sorted(sel) == want and len(want) == 6, "R09.1", f"{OP}::IsComparison over the Operation enum", f"selects exactly {want}",
-              f"`{unparse(rets[0])}` selects {sorted(sel)}; the comparison operations are {want}: "
+              f"IsComparison selects {sorted(sel)}; the comparison operations are {want}: "
               + (f"{sorted(set(want) - set(sel))} are typed as arithmetic (result = operand type instead of int)" if set(want) - set(sel) else f"{sorted(set(sel) - set(want))} are typed as comparisons"), OP, ic)
     maps, fo, _ = c01.scalar_mapping(model)
     for kind, pref in (("scalar", "CMP_"), ("vector", "VECTOR_CMP_")):
